@@ -450,6 +450,164 @@ fn submicro_group(ctx: &Ctx, prop: &'static str, bin: bool) -> Report {
 // ------------------------------------------------------------------------------------------------
 // C06
 
+
+/// Rows in which one or two cells are "sized" (a few KiB up to a few MiB, with the powers of two
+/// and their neighbours swept systematically), mixed with NULLs, small cells and small rows, so
+/// that whatever staging or batching the writer does between a cell and the transport is crossed
+/// with every later cell kind. Text mode for C06, binary for C07.
+fn sized_rows_group(ctx: &Ctx, prop: &'static str, bin: bool) -> Report {
+    let mut sizes: Vec<usize> = Vec::new();
+    for p in [4096usize, 8192, 16384, 32768, 65536] {
+        for d in [-13i64, -5, -4, -1, 0, 1, 4, 9] {
+            sizes.push((p as i64 + d) as usize);
+        }
+    }
+    for s in [5000usize, 9000, 10_000, 12_345, 15_000, 20_000, 24_000, 100_000, 300_000] {
+        sizes.push(s);
+    }
+    let mib: Vec<usize> = vec![(1 << 20) - 9, (1 << 20) - 3, 1 << 20, (1 << 20) + 1, (1 << 20) + 4096, 3 << 19, (2 << 20) + 5, (4 << 20) + 1];
+    let reps = if ctx.thorough { 40 } else { 4 };
+    let n = if ctx.miri { 0 } else { ((sizes.len() + mib.len()) * reps) as u64 };
+    par_cases(ctx, prop, "sizes", n, |rng, i, rep| {
+        let k = i as usize % (sizes.len() + mib.len());
+        let main = if k < sizes.len() { sizes[k] } else { mib[k - sizes.len()] };
+        let nb = rng.range(1, 4) as usize;
+        let nc = nb + 1;
+        let mut cols: Vec<Column> = (0..nb).map(|c| simple_col(&format!("b{}", c), ColumnType::MYSQL_TYPE_LONG_BLOB)).collect();
+        cols.push(simple_col("n", ColumnType::MYSQL_TYPE_LONG));
+        let nr = rng.range(2, 6) as usize;
+        let main_row = rng.usize(nr);
+        let main_col = rng.usize(nb);
+        let mut ops = vec![QOp::Start(0)];
+        let mut want: Vec<Vec<Sem>> = Vec::new();
+        let mut desc_rows: Vec<String> = Vec::new();
+        let mut uid = 0u64;
+        for r in 0..nr {
+            let mut cells: Vec<Cell> = Vec::new();
+            let mut dr = Vec::new();
+            for c in 0..nb {
+                uid += 1;
+                let v = if r == main_row && c == main_col {
+                    V::Stream(ctx.seed ^ i, uid, main)
+                } else {
+                    match rng.below(8) {
+                        0 | 1 | 2 => V::Null,
+                        3 | 4 => V::Bytes(rng.bytes(3)),
+                        5 => V::Stream(ctx.seed ^ i, uid, rng.range(1000, 20_000) as usize),
+                        6 if main < 100_000 => V::Stream(ctx.seed ^ i, uid, *rng.pick(&sizes)),
+                        _ => V::Bytes(Vec::new()),
+                    }
+                };
+                dr.push(match &v { V::Null => "NULL".to_string(), V::Stream(_, _, l) => format!("{}B", l), V::Bytes(b) => format!("{}B", b.len()), _ => "?".into() });
+                let form = if matches!(v, V::Null) { Form::Val } else { FORMS[rng.usize(5)] };
+                cells.push(Cell { v, form });
+            }
+            let iv = if rng.chance(1, 3) { V::Null } else { V::I32(rng.next() as i32) };
+            dr.push(if matches!(iv, V::Null) { "NULL".into() } else { "int".into() });
+            cells.push(Cell { v: iv, form: Form::Val });
+            want.push(cells.iter().map(|c| sem_of(&c.v)).collect());
+            desc_rows.push(dr.join(","));
+            match rng.below(3) {
+                0 => ops.push(QOp::Row(cells, RowForm::Owned)),
+                1 => ops.push(QOp::Row(cells, RowForm::Borrowed)),
+                _ => {
+                    for c in cells {
+                        ops.push(QOp::Col(c));
+                    }
+                    ops.push(QOp::EndRow);
+                }
+            }
+        }
+        ops.push(QOp::Finish);
+        let (cmds, scripts) = if bin {
+            (vec![Cmd::prepare(b"p"), Cmd::execute(1, &[], false), Cmd::ping()], vec![Script::PrepOk { id: 1, params: vec![], cols: cols.clone() }, Script::Q(QProg { colsets: vec![cols.clone()], ops, on_err: OnErr::Drop })])
+        } else {
+            (vec![Cmd::query(b"q"), Cmd::ping()], vec![Script::Q(QProg { colsets: vec![cols.clone()], ops, on_err: OnErr::Drop })])
+        };
+        let mut case = Case::new(cmds, scripts);
+        case.log_reads = false;
+        let obs = run_case(&case);
+        rep.evaluations += 1;
+        if harness_panic(&obs, rep) {
+            return;
+        }
+        let null_after = want[main_row][main_col + 1..].iter().any(|s| *s == Sem::Null);
+        rep.counters.class(format!("sized cell of {} bytes, {} in the same row", main, if null_after { "a NULL later" } else { "no NULL later" }));
+        let d = || J::obj().set("mode", if bin { "binary" } else { "text" }).set("sized_cell_bytes", main).set("rows", desc_rows.iter().map(|r| J::s(r.clone())).collect::<Vec<_>>()).set("outcome", obs.outcome.describe());
+        if i < 1 {
+            rep.sample(d());
+        }
+        if let Outcome::Panic { file, line, msg } = &obs.outcome {
+            rep.violations.push(viol(prop, format!("{} {}", prop, panic_signature(file, *line, msg)), format!("writing a row with a {}-byte cell panicked: {}", main, obs.outcome.describe()), d()));
+            return;
+        }
+        let dec = match decode_output(&obs) {
+            Ok(x) => x.2,
+            Err(e) => {
+                rep.violations.push(viol(prop, format!("{} sizes:bad-framing", prop), e, d()));
+                return;
+            }
+        };
+        let Some(Resp::Parts(parts)) = dec.resps.get(if bin { 3 } else { 2 }) else {
+            rep.violations.push(viol(prop, format!("{} sizes:undecodable-response", prop), format!("resultset does not decode: {:?}; outcome {}", dec.stop, obs.outcome.describe()), d()));
+            return;
+        };
+        let Some(Part::Rows { cols: defs, rows, end: RowsEnd::Eof(_), .. }) = parts.first() else {
+            rep.violations.push(viol(prop, format!("{} sizes:not-a-resultset", prop), "response is not a resultset ending in EOF".into(), d()));
+            return;
+        };
+        if rows.len() != want.len() {
+            rep.violations.push(viol(prop, format!("{} sizes:row-count", prop), format!("client decoded {} rows, shim wrote {}", rows.len(), want.len()), d()));
+            return;
+        }
+        let tf: Vec<(u8, u16)> = defs.iter().map(|c| (c.typ, c.flags)).collect();
+        for (ri, (raw, w)) in rows.iter().zip(want.iter()).enumerate() {
+            let describe = |ci: usize, got: String| format!("row {} column {} (rows as written: {:?}): wrote {}, client decoded {}", ri, ci, desc_rows, match &w[ci] { Sem::Bytes(b) => format!("{} bytes h={:016x}", b.len(), hash128(b).0), o => format!("{:?}", o) }, got);
+            if bin {
+                let vals = match wire::decode_bin_row(raw, &tf) {
+                    Ok(v) => v,
+                    Err(e) => {
+                        rep.violations.push(viol(prop, format!("{} sizes:row-undecodable", prop), format!("row {} (rows as written: {:?}): {}", ri, desc_rows, e), d()));
+                        return;
+                    }
+                };
+                for (ci, (g, s)) in vals.iter().zip(w.iter()).enumerate() {
+                    rep.counters.inc("cells_compared");
+                    if *s == Sem::Null {
+                        rep.counters.inc("null_cells_compared");
+                    }
+                    if !bin_matches(g, s, tf[ci].0) {
+                        let what = if (*g == BinVal::Null) != (*s == Sem::Null) { "null-bitmap" } else { "cell-differs" };
+                        let got = match g { BinVal::Bytes(b) => format!("{} bytes h={:016x}", b.len(), hash128(b).0), o => format!("{:?}", o) };
+                        rep.violations.push(viol(prop, format!("{} sizes:{}", prop, what), describe(ci, got), d()));
+                        return;
+                    }
+                }
+            } else {
+                let cells = match wire::decode_text_row(raw, nc) {
+                    Ok(c) => c,
+                    Err(e) => {
+                        rep.violations.push(viol(prop, format!("{} sizes:row-undecodable", prop), format!("row {} (rows as written: {:?}): {}", ri, desc_rows, e), d()));
+                        return;
+                    }
+                };
+                for (ci, (cell, s)) in cells.iter().zip(w.iter()).enumerate() {
+                    rep.counters.inc("cells_compared");
+                    if *s == Sem::Null {
+                        rep.counters.inc("null_cells_compared");
+                    }
+                    if !text_cell_matches(cell, s) {
+                        let got = cell.as_ref().map(|b| format!("{} bytes h={:016x}", b.len(), hash128(b).0)).unwrap_or("NULL".into());
+                        rep.violations.push(viol(prop, format!("{} sizes:cell-differs", prop), describe(ci, got), d()));
+                        return;
+                    }
+                }
+            }
+            rep.counters.inc("sized_rows_compared");
+        }
+    })
+}
+
 pub fn run_c06(ctx: &Ctx) -> Report {
     let mut rep = Report::default();
     rep.rule = "cases = text-mode resultsets of 1-30 mixed columns x 1-10 rows written through every hand-over form, decoded by the reference text-row decoder and parsed per written type (numbers/temporals compared as values, floats by bit pattern); plus direct encoder sweeps (dates of years 0..9999, all 16-bit integers); a class is a (value type, value class, hand-over form) tuple; non-trivial = a cell was decoded and compared".into();
@@ -665,6 +823,7 @@ pub fn run_c06(ctx: &Ctx) -> Report {
     rep.merge(r);
 
     rep.merge(submicro_group(ctx, "C06", false));
+    rep.merge(sized_rows_group(ctx, "C06", false));
 
     // ---- one cell beyond 16 MiB (thorough): framing is C04's concern
     if ctx.thorough && !ctx.miri {
@@ -1158,6 +1317,7 @@ pub fn run_c07(ctx: &Ctx) -> Report {
     });
     rep.merge(r);
     rep.merge(submicro_group(ctx, "C07", true));
+    rep.merge(sized_rows_group(ctx, "C07", true));
     if ctx.strict() {
         rep.require("submicro_cells_compared", 100);
         rep.require("may_pairs_accepted_and_compared", 100);
